@@ -53,7 +53,7 @@ def run(eng, rep) -> None:
         for cs in cg.sites_in(prog.functions[q]):
             if any(x.endswith("Lark.parse") for x in cs.externals):
                 parse_sites.append(cs)
-    rep.floor("R11.1", "Lark.parse sites reachable from the public entry points", len(parse_sites), 2)
+    rep.floor("R11.1", "Lark.parse sites reachable from the public entry points", len(parse_sites), 1)
     if not parse_sites:
         raise AnalysisError("anchor vanished: no call of Lark.parse reachable from get_fcp")
     for cs in parse_sites:
@@ -74,7 +74,7 @@ def run(eng, rep) -> None:
 
     # ---- R11.2 ---------------------------------------------------------------
     tsites = [cs for cs in xf.transform_sites if cs.caller.qual in xf.reach]
-    rep.floor("R11.2", "Transformer.transform sites reachable from the public entry points", len(tsites), 2)
+    rep.floor("R11.2", "Transformer.transform sites reachable from the public entry points", len(tsites), 1)
     raisers = callback_raisers(eng, xf)
     rep.extra["callback_raisers"] = raisers[:40]
     for cs in tsites:
@@ -415,16 +415,43 @@ def r114(eng, rep, xf, parse_sites) -> None:
         pnode = cfg.stmt_node_containing(cs.node)
         adds = [s for s in cg.sites_in(f) if "fcp.error.Logger.add_source" in s.callees]
         anodes = {cfg.stmt_node_containing(s.node) for s in adds} - {None}
+        if not adds:
+            # the parse may sit in a helper: then every call of the helper must be dominated by add_source in its caller,
+            # with the text and the cited file handed over as arguments
+            callers = [c2 for c2 in cg.callers_of(f.qual) if c2.caller.qual in xf.reach and c2.how != "by-name"]
+            if callers:
+                fps = [p.arg for p in f.params]
+                all_ok = True
+                for c2 in callers:
+                    f2 = c2.caller
+                    cfg2 = eng.cfg(f2)
+                    adds2 = [s2 for s2 in cg.sites_in(f2) if "fcp.error.Logger.add_source" in s2.callees]
+                    an2 = {cfg2.stmt_node_containing(s2.node) for s2 in adds2} - {None}
+                    pn2 = cfg2.stmt_node_containing(c2.node)
+                    dom = bool(an2) and pn2 is not None and cfg2.every_path_passes(pn2, an2)
+                    rep.check(dom, "R11.4", f2.file, f2.qual, "add_source(...) before %s" % norm(c2.node, 50), "the source is registered before the helper that parses it is called",
+                              "a parse error can be created before its source is registered with the logger (rendering raises KeyError)")
+                    all_ok = all_ok and dom
+                    # the registered text is the text handed to the helper's parse
+                    if dom and cs.node.args and isinstance(cs.node.args[0], ast.Name) and cs.node.args[0].id in fps:
+                        i_ = fps.index(cs.node.args[0].id)
+                        actual = c2.node.args[i_] if i_ < len(c2.node.args) else next((k.value for k in c2.node.keywords if k.arg == fps[i_]), None)
+                        for s2 in adds2:
+                            if len(s2.node.args) > 1 and actual is not None:
+                                rep.check(norm(s2.node.args[1]) == norm(actual), "R11.4", f2.file, f2.qual, "add_source(_, %s) / %s(... %s ...)" % (norm(s2.node.args[1]), f.name, norm(actual)),
+                                          "the registered text is the parsed text", "the text registered with the logger is not the text that is parsed (cited lines may not exist)")
+                rep.undecided("R11.4", f.file, f.qual, "cited file of errors built in %s" % f.name, "the parse sits in a helper; agreement of the cited file with the registered key across the call is not decided") if all_ok else None
+                continue
         okd = bool(anodes) and pnode is not None and cfg.every_path_passes(pnode, anodes)
         rep.check(okd, "R11.4", f.file, f.qual, "add_source(...) before %s" % norm(cs.node), "the source is registered before any error can cite it",
                   "a parse error can be created before its source is registered with the logger (rendering raises KeyError)")
-        pv = Provenance(f.node, stop_names=set(Defs(f.node).binds) | set(Defs(f.node).params))
+        pv = Provenance(f.node)   # full local resolution: atoms are access paths rooted at parameters / self / loop variables
         keyroots = set()
         for s in adds:
             if s.node.args:
                 for a in pv.of(s.node.args[0]):
                     if not a.startswith(("const:", "call:")):
-                        keyroots.add(a.split(".")[0].split("[")[0])
+                        keyroots.add(a)
                 # source text registered is the text parsed
                 if len(s.node.args) > 1 and cs.node.args:
                     rep.check(norm(s.node.args[1]) == norm(cs.node.args[0]), "R11.4", f.file, f.qual, "add_source(_, %s) / parse(%s)" % (norm(s.node.args[1]), norm(cs.node.args[0])),
@@ -464,9 +491,12 @@ def r114(eng, rep, xf, parse_sites) -> None:
                                             actual = n.args[i] if i < len(n.args) else next((k.value for k in n.keywords if k.arg == r0), None)
                                             if actual is not None:
                                                 cited.append((actual, "%s(... %s=%s) -> MetaData(filename=%s)" % (g.name, r0, norm(actual), norm(md_file_arg(m)))))
+                    def related(a, b):
+                        return a == b or a.startswith(b + ".") or b.startswith(a + ".") or a.startswith(b + "[") or b.startswith(a + "[")
                     for fa, txt in cited:
-                        roots = {a.split(".")[0].split("[")[0] for a in pv.of(fa) if not a.startswith(("const:", "call:"))}
-                        rep.check(bool(roots) and roots <= keyroots, "R11.4", f.file, f.qual, txt,
+                        roots = {a for a in pv.of(fa) if not a.startswith(("const:", "call:"))}
+                        covered = bool(roots) and all(any(related(a, k) for k in keyroots) for a in roots)
+                        rep.check(covered, "R11.4", f.file, f.qual, txt,
                                   "cited file is the one registered (%s)" % ",".join(sorted(keyroots)), "the error cites a file (%s) other than the one registered with the logger (%s)" % (",".join(sorted(roots)), ",".join(sorted(keyroots))))
     # (c) nodes handed to error()/results_in() on the parse path carry .meta
     tok = prog.classes.get("fcp.parser.Token")
